@@ -329,3 +329,50 @@ func Steps(p []*Edge) []Step {
 	}
 	return s
 }
+
+// Completion maps every node from which a goal node is reachable to the first edge of a shortest path to the
+// nearest goal node (goal nodes themselves are not in the map).
+type Completion map[*Node]*Edge
+
+// CompletionTo computes shortest continuations to the nearest node satisfying goal (reverse breadth-first search).
+func (g *Graph) CompletionTo(goal func(*Node) bool) Completion {
+	in := make(map[*Node][]*Edge, len(g.Nodes))
+	for _, n := range g.Nodes {
+		for _, e := range n.Out {
+			if e.Dst != n {
+				in[e.Dst] = append(in[e.Dst], e)
+			}
+		}
+	}
+	next := Completion{}
+	done := make(map[*Node]bool, len(g.Nodes))
+	var q []*Node
+	for _, n := range g.Nodes {
+		if goal(n) {
+			done[n] = true
+			q = append(q, n)
+		}
+	}
+	for len(q) > 0 {
+		n := q[0]
+		q = q[1:]
+		for _, e := range in[n] {
+			if !done[e.Src] {
+				done[e.Src] = true
+				next[e.Src] = e
+				q = append(q, e.Src)
+			}
+		}
+	}
+	return next
+}
+
+// From returns the continuation from n to the nearest goal node (empty if n is a goal node or none is reachable).
+func (c Completion) From(n *Node) []*Edge {
+	var out []*Edge
+	for e := c[n]; e != nil; e = c[n] {
+		out = append(out, e)
+		n = e.Dst
+	}
+	return out
+}
